@@ -19,7 +19,15 @@ def record(env_name: str, n_envs: int, steps: int, seed: int) -> dict:
     from lerax.policy import MLPActorCriticPolicy
     from lerax.wrapper import TimeLimit
     from ..drive_onpolicy import Recorder, make_algo
-    env = TimeLimit({"CartPole": CartPole, "Pendulum": Pendulum}[env_name](), 7)
+    if env_name == "MaskedTable":
+        # a finite MDP with state-dependent action masks (lvf/tables.py) under the production policy
+        import random
+        from .. import tables as tb
+        rng = random.Random(seed)
+        cfg = tb.with_stack(tb.gen_mdp(rng, "disc", "box", mask=True, nS=4, nA=4), [tb.wrec("TimeLimit", n=5)])
+        env = tb.build_env(cfg)
+    else:
+        env = TimeLimit({"CartPole": CartPole, "Pendulum": Pendulum}[env_name](), 7)
     k0, k1, k2 = jr.split(jr.key(seed), 3)
     policy = MLPActorCriticPolicy(env=env, key=k0, log_std_init=1.0) if env_name == "Pendulum" else MLPActorCriticPolicy(env=env, key=k0)
     algo = make_algo("PPO", n_envs, steps)
@@ -38,14 +46,20 @@ def record(env_name: str, n_envs: int, steps: int, seed: int) -> dict:
     atoms = {"FirstPpoRatioIsOne": bool(np.all(np.abs(ratio - 1.0) <= 1e-4)),
              "StoredValueIsPolicyValueOfStoredObservation": bool(np.allclose(np.asarray(v), np.asarray(flat.values), rtol=1e-5, atol=1e-5)),
              "AdvantagesAndReturnsAreFinite": bool(np.all(np.isfinite(np.asarray(flat.advantages))) and np.all(np.isfinite(np.asarray(flat.returns))))}
+    masked_rows = 0
+    if flat.action_masks is not None:
+        m = np.asarray(flat.action_masks).astype(bool)
+        a = np.asarray(flat.actions).astype(int)
+        atoms["StoredActionIsAllowedByTheStoredMask"] = bool(np.all(m[np.arange(len(a)), a]))
+        masked_rows = int(np.sum(~np.all(m, axis=1)))
     return {"atoms": atoms, "meta": {"env": env_name, "N": n_envs, "rows": int(ratio.shape[0]), "max_abs_ratio_minus_1": float(np.max(np.abs(ratio - 1.0))),
-                                     "stored_actions_outside_bounds": oob, "dones": int(np.sum(np.asarray(flat.dones)))}}
+                                     "stored_actions_outside_bounds": oob, "dones": int(np.sum(np.asarray(flat.dones))), "rows_with_a_masked_action": masked_rows}}
 
 
 def run_c04(ctx: Ctx) -> Report:
     rep = Report()
     cases = [dict(env=e, N=n, steps=s, seed=ctx.rng.randrange(2 ** 31)) for (e, n, s) in
-             (("CartPole", 1, 32), ("Pendulum", 1, 48), ("Pendulum", 2, 32)) + ((("CartPole", 3, 32), ("Pendulum", 3, 64)) if ctx.thorough else ())]
+             (("CartPole", 1, 32), ("Pendulum", 1, 48), ("Pendulum", 2, 32), ("MaskedTable", 2, 24)) + ((("CartPole", 3, 32), ("Pendulum", 3, 64)) if ctx.thorough else ())]
     traces = [record(c["env"], c["N"], c["steps"], c["seed"]) for c in cases]
     v = tracecheck.validate(ctx, "trace/Trace_Atoms.tla", traces, "realpol")
     rep.traces += len(traces)
